@@ -32,7 +32,7 @@ def run_demo(tree, demo):
 
 
 def main():
-    args = [a for a in sys.argv[1:] if not a.startswith('--')]
+    args = [a for a in sys.argv[1:] if not a.startswith('-')]
     tier = 'quick'
     if '--tier' in sys.argv:
         tier = sys.argv[sys.argv.index('--tier') + 1]
@@ -59,7 +59,7 @@ def main():
                 env = dict(os.environ, REPO=tree, VF_NO_EVIDENCE='1', VERIF_TIER=tier)
                 r = subprocess.run([os.path.join(VERIF, 'check'), prop, '--tier', tier], capture_output=True, text=True, env=env, timeout=3600)
                 lines = [l for l in r.stdout.splitlines() if l.startswith(('VIOLATION', 'UNDECIDED', 'CHECKER'))]
-                verdicts[prop] = (r.returncode, lines[:2])
+                verdicts[prop] = (r.returncode, lines if '-v' in sys.argv else lines[:2])
             summary.append((name, f'demo unchanged={base_rc} changed={mut_rc}', verdicts))
         finally:
             shutil.rmtree(tree, ignore_errors=True)
@@ -67,7 +67,7 @@ def main():
         print(f'== {name}: {demo}')
         if isinstance(verdicts, dict):
             for prop, (rc, lines) in verdicts.items():
-                print(f'   {prop}: exit {rc}  {"; ".join(l[:160] for l in lines)}')
+                print(f'   {prop}: exit {rc}  {"; ".join((l if "-v" in sys.argv else l[:160]) for l in lines)}')
         else:
             print('  ', verdicts)
 
